@@ -564,23 +564,34 @@ func (s CleanScn) ID() string {
 	return fmt.Sprintf("native=%v-sf%d-aw=%v-crash=%v", s.Native, s.StoreFails, s.AfterWrite, s.Crash)
 }
 
-// RunCleanForced: instance a (cleaning enabled, background pass frozen by a
-// huge interval) merges the only snapshot of a stale instance x; the real
-// cleaner is invoked with a virtual clock at every yield point and inside
-// every Store attempt (also the failing ones).
-func RunCleanForced(scn CleanScn, env *runner.Env, res *runner.Result) {
+// RunCleanForced: instance a (cleaning enabled, background pass frozen by a huge interval) merges the only snapshot
+// of a stale instance x; the real cleaner is invoked with a virtual clock at every yield point and inside every Store
+// attempt (also the failing ones). Phase 2 (after a's first upload): a second, newer snapshot of x and a snapshot of
+// another stale instance y appear; a merges them without any local change (so it does not upload), while the cleaner
+// keeps running; only then the application writes once more. which = "C05" reports the conservation monitor,
+// "C12" the deletion policy (a stale instance's newest snapshot only after an own successful Store that followed its merge).
+func RunCleanForced(scn CleanScn, env *runner.Env, res *runner.Result) { runCleanForced(scn, env, res, "C05") }
+
+// RunCleanForcedPolicy is the same execution judged by the cleaner policy (C12).
+func RunCleanForcedPolicy(scn CleanScn, env *runner.Env, res *runner.Result) {
+	runCleanForced(scn, env, res, "C12")
+}
+
+func runCleanForced(scn CleanScn, env *runner.Env, res *runner.Result, which string) {
 	b := bucket.New()
 	mon := NewConsMon(dbName)
 	b.OnMutation = mon.OnMutation
 	s := sched.New()
 	defer s.Close()
-	ts := time.Now().Add(-30 * 24 * time.Hour)
-	xname := snapshot.Name(dbName, "x", "GX", ts)
-	xs := &wire.Snap{FormatVersion: 3, CompatVersion: 1, Meta: wire.Meta{DatabaseName: dbName, InstanceID: "x", GenerationID: "GX", TimestampNano: uint64(ts.UnixNano())},
-		DBIs: []wire.DBI{{Name: "d", Entries: []wire.KV{{Key: []byte("only-in-x"), Val: []byte("precious"), TS: uint64(ts.UnixNano())}}}}}
-	b.Put(xname, wire.Gzip(wire.EncodeSnapshot(xs)))
-	// make the monitor aware of x's content (Put is not a logged mutation)
-	mon.OnMutation(b, bucket.Event{Op: "Store", Name: xname})
+	stale := func(instName string, age time.Duration, key string) (string, []byte) {
+		ts := time.Now().Add(-age)
+		ws := &wire.Snap{FormatVersion: 3, CompatVersion: 1, Meta: wire.Meta{DatabaseName: dbName, InstanceID: instName, GenerationID: "GX", TimestampNano: uint64(ts.UnixNano())},
+			DBIs: []wire.DBI{{Name: "d", Entries: []wire.KV{{Key: []byte(key), Val: []byte("precious"), TS: uint64(ts.UnixNano())}}}}}
+		return snapshot.Name(dbName, instName, "GX", ts), wire.Gzip(wire.EncodeSnapshot(ws))
+	}
+	xname, xdata := stale("x", 30*24*time.Hour, "only-in-x")
+	b.Put(xname, xdata)
+	mon.OnMutation(b, bucket.Event{Op: "Store", Name: xname}) // Put is not a logged mutation: tell the monitor
 	conf := lsx.FastConfig("a")
 	conf.Storage.Cleanup = config.Cleanup{Enabled: true, Interval: 10 * time.Hour, MustKeepInterval: 0, RemoveOldInstancesInterval: 24 * time.Hour}
 	conf.StorageRetryCount = 6
@@ -591,20 +602,39 @@ func RunCleanForced(scn CleanScn, env *runner.Env, res *runner.Result) {
 	}
 	defer a.Close()
 	cl := a.S.VerifCleaner()
-	var bgDone, loadedX, wrote, storeN, cleanerRuns int32
+	var bgDone, wrote, storeN, cleanerRuns, phase int32
+	// per stale blob: merged? own successful Store after the merge?
+	var mu sync.Mutex
+	loaded := map[string]bool{}
+	storedAfter := map[string]bool{}
+	var policyViol []string
+	var staleBlobs = []string{xname}
 	vnow := time.Now().Add(time.Hour)
-	runCleaner := func() {
+	runCleaner := func(where string) {
 		if atomic.LoadInt32(&bgDone) == 0 {
 			return
 		}
+		start := len(b.Log())
 		_ = cl.RunOnce(context.Background(), vnow)
 		vnow = vnow.Add(time.Minute)
 		atomic.AddInt32(&cleanerRuns, 1)
+		for _, e := range b.Log()[start:] {
+			if e.Op != "Delete" {
+				continue
+			}
+			mu.Lock()
+			for _, sb := range staleBlobs {
+				if e.Name == sb && !(loaded[sb] && storedAfter[sb]) {
+					policyViol = append(policyViol, fmt.Sprintf("the newest snapshot %s of a stale instance was deleted at %q: merged=%v, own successful Store after that merge=%v", sb, where, loaded[sb], storedAfter[sb]))
+				}
+			}
+			mu.Unlock()
+		}
 	}
 	b.SetHook(func(op, name string, nth int) bucket.Decision {
 		if op == "Store" {
 			n := int(atomic.AddInt32(&storeN, 1))
-			runCleaner()
+			runCleaner(fmt.Sprintf("store attempt %d", n))
 			if n <= scn.StoreFails {
 				if scn.Crash && n == scn.StoreFails {
 					sched.Crash(sched.Event{})
@@ -614,6 +644,18 @@ func RunCleanForced(scn CleanScn, env *runner.Env, res *runner.Result) {
 		}
 		return bucket.Decision{}
 	})
+	prevOnMut := b.OnMutation
+	b.OnMutation = func(bb *bucket.B, ev bucket.Event) {
+		prevOnMut(bb, ev)
+		if ev.Op == "Store" && ev.Err == "" && strings.HasPrefix(ev.Name, dbName+"__a__") {
+			mu.Lock()
+			for sb := range loaded {
+				storedAfter[sb] = true
+			}
+			mu.Unlock()
+		}
+	}
+	var x2name, y1name string
 	s.Delay = func(in, point string) {
 		if point == "cleaner.run_done" {
 			atomic.StoreInt32(&bgDone, 1)
@@ -624,25 +666,76 @@ func RunCleanForced(scn CleanScn, env *runner.Env, res *runner.Result) {
 		}
 		switch point {
 		case "load.done":
-			atomic.StoreInt32(&loadedX, 1)
-			runCleaner()
+			runCleaner("load.done")
 		case "loop.end":
-			runCleaner()
-			if atomic.LoadInt32(&loadedX) == 1 && s.Count("a", "loop.end", 0) >= 2 && atomic.CompareAndSwapInt32(&wrote, 0, 1) {
+			runCleaner("loop.end")
+			mu.Lock()
+			lx := loaded[xname]
+			mu.Unlock()
+			if lx && s.Count("a", "loop.end", 0) >= 2 && atomic.CompareAndSwapInt32(&wrote, 0, 1) {
 				AppPut(a, s, "local", "v")
 			}
 		case "send.before_store", "send.after_store", "loop.top", "load.before_txn", "send.before_txn":
-			runCleaner()
+			runCleaner(point)
+		}
+	}
+	// load.done bookkeeping through an arm-less scan of the event log (the Delay callback gets no detail)
+	markLoaded := func() {
+		for _, e := range s.Events() {
+			if e.Inst == "a" && e.Point == "load.done" {
+				mu.Lock()
+				loaded[e.Detail] = true
+				mu.Unlock()
+			}
 		}
 	}
 	loop := sched.Start(a, s)
 	defer loop.Stop(5 * time.Second)
-	dl := time.Now().Add(20 * time.Second)
+	dl := time.Now().Add(25 * time.Second)
+	phase2Idle := 0
 	for time.Now().Before(dl) {
 		if _, _, fin := loop.Result(); fin {
 			break
 		}
-		if int(atomic.LoadInt32(&storeN)) > scn.StoreFails && s.IdleIterations("a", 0) >= 5 {
+		markLoaded()
+		switch atomic.LoadInt32(&phase) {
+		case 0:
+			if int(atomic.LoadInt32(&storeN)) > scn.StoreFails && b.SuccessfulCount("Store") > 0 && s.IdleIterations("a", 0) >= 3 {
+				if scn.Crash {
+					atomic.StoreInt32(&phase, 3)
+					break
+				}
+				// phase 2: newer snapshot of x and a snapshot of another stale instance appear; no local change
+				var d []byte
+				x2name, d = stale("x", 29*24*time.Hour, "only-in-x2")
+				b.Put(x2name, d)
+				mon.OnMutation(b, bucket.Event{Op: "Store", Name: x2name})
+				y1name, d = stale("y", 20*24*time.Hour, "only-in-y")
+				b.Put(y1name, d)
+				mon.OnMutation(b, bucket.Event{Op: "Store", Name: y1name})
+				mu.Lock()
+				staleBlobs = []string{x2name, y1name}
+				mu.Unlock()
+				s.Note("x", "STAGE second snapshot of x and a snapshot of y")
+				phase2Idle = s.Count("a", "loop.end", 0)
+				atomic.StoreInt32(&phase, 1)
+			}
+		case 1:
+			mu.Lock()
+			both := loaded[x2name] && loaded[y1name]
+			mu.Unlock()
+			if both && s.Count("a", "loop.end", 0) > phase2Idle+25 {
+				// the cleaner ran ~100 times without an upload of a in between; now the application writes again
+				AppPut(a, s, "local2", "v")
+				atomic.StoreInt32(&phase, 2)
+				phase2Idle = s.Count("a", "loop.end", 0)
+			}
+		case 2:
+			if s.Count("a", "loop.end", 0) > phase2Idle+15 {
+				atomic.StoreInt32(&phase, 3)
+			}
+		}
+		if atomic.LoadInt32(&phase) == 3 {
 			break
 		}
 		time.Sleep(300 * time.Microsecond)
@@ -651,16 +744,30 @@ func RunCleanForced(scn CleanScn, env *runner.Env, res *runner.Result) {
 	res.Count("cleaner_runs_forced", int64(atomic.LoadInt32(&cleanerRuns)))
 	res.Count("bucket_mutations", int64(mon.Mutations))
 	res.Count("conservation_checks", int64(mon.Checks))
-	if atomic.LoadInt32(&loadedX) == 0 {
+	res.Add("phase_reached", fmt.Sprint(atomic.LoadInt32(&phase)))
+	mu.Lock()
+	lx := loaded[xname]
+	pv := append([]string{}, policyViol...)
+	mu.Unlock()
+	if !lx {
 		res.Verdict, res.Msg = runner.Inconclusive, "x was never merged"
 		return
 	}
-	for _, v := range mon.Viol {
-		res.Violate("published-data-lost", v, map[string]any{"scenario": scn, "events_tail": s.Tail(60), "stores": mon.StoreSeq})
-	}
-	if !fleetHasKey(b, "only-in-x") {
-		res.Violate("published-data-lost", "the stale instance's unique key is in no snapshot of the bucket any more", map[string]any{"scenario": scn, "names": b.Names(), "events_tail": s.Tail(60)})
+	wit := map[string]any{"scenario": scn, "events_tail": s.Tail(70), "stores": mon.StoreSeq, "names": b.Names()}
+	if which == "C12" {
+		for _, v := range pv {
+			res.Violate("stale-newest-deleted-before-own-upload", v, wit)
+		}
+	} else {
+		for _, v := range mon.Viol {
+			res.Violate("published-data-lost", v, wit)
+		}
+		for _, k := range []string{"only-in-x", "only-in-x2", "only-in-y"} {
+			if (k == "only-in-x" || atomic.LoadInt32(&phase) >= 1) && !fleetHasKey(b, k) {
+				res.Violate("published-data-lost", "the unique key "+k+" of a stale instance is in no snapshot of the bucket any more", wit)
+			}
+		}
 	}
 	res.NonTrivial = atomic.LoadInt32(&cleanerRuns) > 3
-	res.Sample = map[string]any{"scenario": scn, "cleaner_runs": cleanerRuns, "store_attempts": storeN, "mutations": mon.Mutations}
+	res.Sample = map[string]any{"scenario": scn, "cleaner_runs": cleanerRuns, "store_attempts": storeN, "mutations": mon.Mutations, "phase": phase}
 }
